@@ -39,6 +39,78 @@ def queue_diff(ctx, replay=None):
     return {"violations": [], "disagreements": dis, "coverage": {"random_queue_ops": len(lines)}}
 
 
+def pqueue_ops(seed, n_ops):
+    """one random operation sequence for the priority heap: initial items, then puts and gets; priorities are a small range so
+    that ties are common, absent items get -1 (the DONE sentinel's priority), as in create_queue"""
+    rng = random.Random(seed)
+    prio = {v: rng.randrange(-1, 6) for v in range(40) if rng.random() < 0.8}
+    init = [rng.randrange(40) for _ in range(rng.choice((0, 1, 2, 3, 5, 8, 13)))]
+    ops = [("put", rng.randrange(40)) if rng.random() < 0.55 else ("get",) for _ in range(n_ops)]
+    return prio, init, ops
+
+
+def pqueue_play(prio, init, ops):
+    """Play the sequence on the real PriorityQueue.  Returns (driver lines, expected replies, conservation violation or None):
+    whatever the model says, the real heap must hold exactly the items put and not yet got, and get must return one of them."""
+    import collections
+    import uberjob._execution.scheduler as sch
+    show = lambda q: " ".join("%d:%d" % (kv.key, kv.value) for kv in q.queue)
+    pr = lambda v: prio.get(v, -1)
+    lines, want = [], []
+    lines.append("pq heapify " + " ".join("%d:%d" % (pr(v), v) for v in init))
+    q = sch.PriorityQueue(init, pr)
+    want.append(show(q))
+    bag = collections.Counter(init)
+    for k, op in enumerate(ops):
+        before = show(q)
+        if op[0] == "put":
+            q._put(op[1])
+            bag[op[1]] += 1
+            lines.append("pq push %s | %d:%d" % (before, pr(op[1]), op[1]))
+            want.append(show(q))
+        else:
+            if q._qsize() == 0:
+                continue
+            got = q._get()
+            lines.append("pq pop " + before)
+            want.append("%d:%d | %s" % (pr(got), got, show(q)))
+            if bag[got] <= 0:
+                return lines, want, f"operation {k}: _get returned {got}, which is not in the queue"
+            bag[got] -= 1
+        have = collections.Counter(kv.value for kv in q.queue)
+        if have != +bag or q._qsize() != sum(bag.values()):
+            return lines, want, (f"operation {k} ({op[0]}): the heap holds {sorted(have.elements())}, "
+                                 f"the items put and not yet taken are {sorted(bag.elements())}")
+    return lines, want, None
+
+
+def pqueue_diff(ctx, only=None):
+    """T2: the transcribed heapq algorithms behind PriorityQueue (Lean, `PQueue`) vs the real class (C `_heapq`), whole
+    list compared after construction and after every `_put` / `_get`; and conservation judged on the real class itself."""
+    n = 60 if ctx.tier == "quick" else 1500
+    seeds = [only] if only is not None else [ctx.seed * 7919 + i for i in range(n)]
+    lines, want, viol, sizes = [], [], [], []
+    for sd in seeds:
+        prio, init, ops = pqueue_ops(sd, 14 if ctx.tier == "quick" else 30)
+        l, w, bad = pqueue_play(prio, init, ops)
+        lines += l
+        want += w
+        sizes.append(len(init))
+        if bad:
+            viol.append({"property": "C04", "what": "PriorityQueue (scheduler='default') lost or duplicated an item: " + bad,
+                         "replay_fn": "pqueue", "pq_seed": sd})
+            break
+    dis = []
+    if ctx.driver is not None:
+        for line, w, g in zip(lines, want, ctx.driver.batch(lines)):
+            if w.strip() != g.strip():
+                dis.append({"layer": "priority-queue", "request": line, "impl": w, "model": g})
+                break
+    return {"violations": viol, "disagreements": dis,
+            "coverage": {"priority_queue_ops": len(lines), "priority_queue_sequences": len(seeds),
+                         "priority_queue_max_initial": max(sizes) if sizes else 0}}
+
+
 def equal_constant_cases(only=None):
     """Two nodes are not the same node because they hold equal constants: a literal that something must WAIT for (the target
     of add_dependency) next to an unrelated call that is given an equal constant.  Asking for the unrelated call must not run
@@ -87,10 +159,17 @@ def extras(ctx, replay=None):
         if replay.get("replay_fn") == "equal-constant":
             v, _ = equal_constant_cases(only=replay["const_case"])
             return v[0]["what"] if v else None
+        if replay.get("replay_fn") == "pqueue":
+            v = pqueue_diff(ctx, only=replay["pq_seed"])["violations"]
+            return v[0]["what"] if v else None
         if "spec" in replay and "hseed" in replay:
             return ce.replay_cache(ctx, replay, {"C04"})
         return None
     a = queue_diff(ctx)
+    b = pqueue_diff(ctx)
+    a["violations"] += b["violations"]
+    a["disagreements"] += b["disagreements"]
+    a["coverage"].update(b["coverage"])
     v, n = equal_constant_cases()
     a["violations"] += v[:2]
     a["coverage"]["equal_constant_cases"] = n
